@@ -394,7 +394,7 @@ pub fn run_conc(tokens: &[&str]) -> String {
                     let mut last = Instant::now();
                     let mut tmp = [0u8; 4096];
                     loop {
-                        match tokio::time::timeout(Duration::from_millis(900), rd.read(&mut tmp)).await {
+                        match tokio::time::timeout(Duration::from_millis(2500), rd.read(&mut tmp)).await {
                             Err(_) => break,
                             Ok(Ok(0)) => break,
                             Ok(Ok(n)) => {
